@@ -58,8 +58,7 @@ Lemma step_req_JI w g r j :
   fst (g_step g (HReq r) (snd (step w (HReq r)))) = true.
 Proof.
   intros HJ Hj Hwf Hpj. pose proof (ji_inv _ _ HJ) as HI. pose proof (ji_gr _ _ HJ) as HG.
-  unfold wf_req in Hwf. apply andb_prop in Hwf. destruct Hwf as [Hwf Hscr].
-  apply andb_prop in Hwf. destruct Hwf as [Hpl Hcr].
+  unfold wf_req in Hwf. apply andb_prop in Hwf. destruct Hwf as [Hpl Hcr].
   assert (Hpl' : rq_plan r = []) by (destruct (rq_plan r); [reflexivity | discriminate]).
   assert (Hcr' : rq_crash r = None) by (destruct (rq_crash r); [discriminate | reflexivity]).
   assert (HW' : HistInv3.winv 0 HistInv.ND (w_st (fst (step w (HReq r))))).
@@ -85,7 +84,7 @@ Proof.
     - destruct Hjc as (k' & E & _). discriminate E.
     - discriminate Hjc. }
   destruct (req_body s1 q (rq_script r)) as [[[[[s3 rc] st0] sr] fin] cks] eqn:Hrb.
-  destruct (req_body_eff s1 q (rq_script r) s3 rc st0 sr fin cks HI1 HG1 Hjar Hno Hscr Hrb)
+  destruct (req_body_eff s1 q (rq_script r) s3 rc st0 sr fin cks HI1 HG1 Hjar Hno Hrb)
     as (HI3 & HG3 & Hu3 & U & Hv3 & Hp3 & Hst).
   pose proof (req_body_draws (w_st w) q (rq_script r) (ji_pf _ _ HJ) (rq_tb r) s3 rc st0 sr fin cks Hrb) as Hdraws.
   set (s3' := set_tb (set_plan s3 []) []).
@@ -159,12 +158,12 @@ Qed.
 
 (* ------------------------------------------------------------ histories *)
 
-Lemma c01_wf_pjar r : c01_hop false (HReq r) = true -> rq_present r = PJar.
+Lemma c01_wf_pjar r : c01_hop (HReq r) = true -> rq_present r = PJar.
 Proof. cbn. destruct (rq_present r); [reflexivity | discriminate]. Qed.
 
 Theorem c01_hist_from j : forall hs w g,
   JI w g -> c_json (conf (w_st w)) = j ->
-  forallb (wf_hop j) hs = true -> forallb (c01_hop false) hs = true ->
+  forallb (wf_hop j) hs = true -> forallb c01_hop hs = true ->
   g_run g hs (run_from w hs) = true.
 Proof.
   induction hs as [|h t IH]; intros w g HJ Hj Hwf Hc01; [reflexivity|].
@@ -183,9 +182,10 @@ Proof.
 Qed.
 
 (* The safety half of C01 along histories: fault-free, crash-free, cookie-following
-   clients, no GetAndDelete, the codec unchanged by configuration changes. *)
+   clients, any scripts (GetAndDelete included), the codec unchanged by
+   configuration changes. *)
 Theorem c01_safety c hs :
-  wf_hist c hs = true -> forallb (c01_hop false) hs = true -> g_run [] hs (run c hs) = true.
+  wf_hist c hs = true -> forallb c01_hop hs = true -> g_run [] hs (run c hs) = true.
 Proof.
   intros Hwf Hc. unfold run. apply (c01_hist_from (c_json c)); [apply JI_init | reflexivity | exact Hwf | exact Hc].
 Qed.
